@@ -94,10 +94,39 @@ func prov(v ssa.Value, out map[string]bool, seen map[ssa.Value]bool) {
 		prov(x.X, out, seen)
 		prov(x.Y, out, seen)
 	case *ssa.Slice:
-		// slice of a local array: the elements stored into it
+		// slice of a local array: the elements stored into it, restricted to constant bounds when present
 		if a, ok := x.X.(*ssa.Alloc); ok {
+			lo, hi := int64(0), int64(-1)
+			bounded := true
+			if x.Low != nil {
+				if v, ok := constInt(x.Low); ok {
+					lo = v
+				} else {
+					bounded = false
+				}
+			}
+			if x.High != nil {
+				if v, ok := constInt(x.High); ok {
+					hi = v
+				} else {
+					bounded = false
+				}
+			}
+			if bounded && (x.Low != nil || x.High != nil) {
+				provAllocRange(a, lo, hi, out, seen)
+				return
+			}
 			provAlloc(a, out, seen)
 			return
+		}
+		prov(x.X, out, seen)
+	case *ssa.IndexAddr:
+		// element of a local array
+		if a, ok := x.X.(*ssa.Alloc); ok {
+			if k, ok := constInt(x.Index); ok {
+				provAllocRange(a, k, k+1, out, seen)
+				return
+			}
 		}
 		prov(x.X, out, seen)
 	case *ssa.Alloc:
@@ -182,6 +211,43 @@ func provAlloc(a *ssa.Alloc, out map[string]bool, seen map[ssa.Value]bool) {
 		case *ssa.Store:
 			if y.Addr == ssa.Value(a) {
 				prov(y.Val, out, seen)
+			}
+		}
+	}
+}
+
+// provAllocRange: provenance of the elements lo ≤ k < hi of a local array (hi < 0: to the end); a single element
+// carries no position tag.
+func provAllocRange(a *ssa.Alloc, lo, hi int64, out map[string]bool, seen map[ssa.Value]bool) {
+	n := int64(-1)
+	if pt, ok := a.Type().Underlying().(*types.Pointer); ok {
+		if at, ok := pt.Elem().Underlying().(*types.Array); ok {
+			n = at.Len()
+		}
+	}
+	if hi < 0 {
+		hi = n
+	}
+	for _, r := range *a.Referrers() {
+		ia, ok := r.(*ssa.IndexAddr)
+		if !ok {
+			continue
+		}
+		k, ok := constInt(ia.Index)
+		if !ok || k < lo || k >= hi {
+			continue
+		}
+		for _, rr := range *ia.Referrers() {
+			if s, ok := rr.(*ssa.Store); ok && s.Addr == ssa.Value(ia) {
+				if hi-lo > 1 {
+					sub := map[string]bool{}
+					prov(s.Val, sub, seen)
+					for kk := range sub {
+						out[kk+"@"+idxStr(ia.Index)] = true
+					}
+				} else {
+					prov(s.Val, out, seen)
+				}
 			}
 		}
 	}
